@@ -844,6 +844,19 @@ static int run_case(struct vf_rng *r, long idx)
 		vf_count("records_vbi3", n);
 		judge(&c, "vbi3_raw_decoder", frame, now3, tx, ntx, out, n, scan_lines);
 
+		/* The caller's array may be smaller than the image has scan lines: blank lines give no record, so an
+		 * array with room for the transmitted lines (exactly, or anything up to one per scan line) must
+		 * receive them all, wherever in the image they are. */
+		if (ntx < scan_lines && vf_chance(r, 1, 3)) {
+			int cap = vf_chance(r, 1, 2) ? ntx : vf_range(r, ntx, scan_lines - 1);
+			memset(out, CANARY, sizeof *out * (size_t)(scan_lines + NCANARY));
+			vf_phase("vbi3_raw_decoder_decode");
+			n = (int)vbi3_raw_decoder_decode(rd3, out, (unsigned)cap, raw);
+			vf_count("decodes_with_small_array", 1);
+			if (cap == ntx) vf_count("decodes_with_exactly_fitting_array", 1);
+			judge(&c, "vbi3_raw_decoder(small array)", frame, now3, tx, ntx, out, n, cap);
+		}
+
 		memset(out, CANARY, sizeof *out * (size_t)(scan_lines + NCANARY));
 		vf_phase("vbi_raw_decode");
 		n = vbi_raw_decode(&rdo, raw, out);
